@@ -277,3 +277,79 @@ def _agg_activation(ex, p, recv, args, kwargs, node):
 
 
 INTERFACES[("Aggregated", "activation_degree")] = _agg_activation
+
+
+# ---------------------------------------------------------------------------------------------------- engine-level contracts (C01, C13)
+DArr = z3.ArraySort(Ref, XR)
+GArr = z3.ArraySort(Ref, z3.BoolSort())
+# interface contract of Activation.activate(rule_block): its effect on the fuzzy outputs, rule degrees and triggered flags is a function of the
+# activation object, the block, and the state it reads (fuzzy outputs so far, variable values); the concrete methods are proved in C08
+act_T = z3.Function("act_T", Ref, Ref, TArr, VArr, TArr)
+act_D = z3.Function("act_D", Ref, Ref, TArr, VArr, DArr, DArr)
+act_G = z3.Function("act_G", Ref, Ref, TArr, VArr, GArr, GArr)
+# interface contract of Defuzzifier.defuzzify(fuzzy, minimum, maximum): a pure function of the defuzzifier, the range, the aggregation operator and
+# the activated terms of the fuzzy output (proved per defuzzifier in C09/C10)
+defuzz_val = z3.Function("defuzz_val", Ref, XR, XR, Ref, SeqAct, XR)
+
+
+def _activate_iface(ex, p, recv, args, kwargs, node):
+    H = p.heap
+    b = args[0].r
+    T, V = H["Aggregated.terms"], H["Variable._value"]
+    H2 = dict(H)
+    H2["Aggregated.terms"] = act_T(recv.r, b, T, V)
+    H2["Rule.activation_degree"] = act_D(recv.r, b, T, V, H["Rule.activation_degree"])
+    H2["Rule.triggered"] = act_G(recv.r, b, T, V, H["Rule.triggered"])
+    p.heap = H2
+    ex.writes |= {"Aggregated.terms", "Rule.activation_degree", "Rule.triggered"}
+    ex.raised.append((p.fork(), "ActivationFailure"))      # e.g. a vector-incapable method given a batch
+    return None
+
+
+INTERFACES[("Activation", "activate")] = _activate_iface
+ACTIVATE_MODIFIES = ("Aggregated.terms", "Rule.activation_degree", "Rule.triggered")
+
+
+def commit_value(H, v, x):
+    """Appendix A.4 commit: default substitution then range clipping (proved for the real code in C12)"""
+    fz = H["OutputVariable.fuzzy"][v]
+    d = xr2x(H["OutputVariable.default_value"][v])
+    y = xr.ite(z3.And(x.nan, z3.Not(d.nan)), d, x)
+    return xr.ite(H["Variable.lock_range"][v], xr.clip(y, xr2x(H["Aggregated.minimum"][fz]), xr2x(H["Aggregated.maximum"][fz])), y)
+
+
+def defuzzified(H, v, T=None):
+    """the value an enabled output variable takes when defuzzified in heap H (scalar processing; the batch form is C12)"""
+    fz = H["OutputVariable.fuzzy"][v]
+    T = H["Aggregated.terms"] if T is None else T
+    dv = xr2x(defuzz_val(H["OutputVariable.defuzzifier"][v], H["Aggregated.minimum"][fz], H["Aggregated.maximum"][fz], H["Aggregated.aggregation"][fz], T[fz]))
+    held = xr2x(H["Variable._value"][v])
+    raw = xr.ite(dv.nan, xr.ite(H["OutputVariable.lock_previous"][v], held, xr.const(float("nan"))), dv)
+    return x2xr(commit_value(H, v, raw))
+
+
+class DefuzzifyContract(Contract):
+    """variable.OutputVariable.defuzzify() at call sites (proved in C12 for batches of any length; used here for one row):
+    disabled -> nothing; no defuzzifier -> ValueError with the state unchanged; else previous_value := value held, value := cascade"""
+    modifies = ("Variable._value", "OutputVariable.previous_value")
+
+    def call(s, ex, p, recv, args, kwargs, node):
+        H = p.heap
+        v = recv.r
+        en = H["Variable.enabled"][v]
+        fz = H["OutputVariable.fuzzy"][v]
+        q = p.fork(); q.pc += [en, H["OutputVariable.defuzzifier"][v] == NONE]
+        ex.raised.append((q, "ValueError"))
+        q2 = p.fork(); q2.pc += [en, H["OutputVariable.defuzzifier"][v] != NONE]
+        ex.raised.append((q2, "DefuzzifierFailure"))
+        p.pc.append(z3.Implies(en, H["OutputVariable.defuzzifier"][v] != NONE))
+        for t in (H["Variable._value"][v], H["OutputVariable.default_value"][v], H["Aggregated.minimum"][fz], H["Aggregated.maximum"][fz]):
+            p.pc.append(canon(t))
+        dvt = defuzz_val(H["OutputVariable.defuzzifier"][v], H["Aggregated.minimum"][fz], H["Aggregated.maximum"][fz], H["Aggregated.aggregation"][fz], H["Aggregated.terms"][fz])
+        p.pc.append(canon(dvt))
+        newv = defuzzified(H, v)
+        p.heap = dict(H)
+        p.heap["Variable._value"] = z3.Store(H["Variable._value"], v, z3.If(en, newv, H["Variable._value"][v]))
+        p.heap["OutputVariable.previous_value"] = z3.Store(H["OutputVariable.previous_value"], v, z3.If(en, H["Variable._value"][v], H["OutputVariable.previous_value"][v]))
+        ex.writes |= {"Variable._value", "OutputVariable.previous_value"}
+        return None
